@@ -16,7 +16,7 @@ class Prop:
             "configurations (tun,bind,receive functions) in {(1,1,2),(4,2,1),(2,8,2),(3,3,1)}: 14 directed plans per configuration "
             "(outbound branches, inbound transport branches, handshake branches, key rotation, staged overflow > 128 containers, "
             "overflow then down/up, counter limit with out-of-order re-staging, down/up cycles, persistent keepalive, removal, "
-            "identity change, close with packets staged, close while down, rate-limited handshakes under load with a consumed cookie, handshake-queue overflow with all handshake workers parked in Bind.Send, TUN reads that return packets together with ErrTooManySegments followed by close / by a fatal read, containers left in stopped peers' autodraining queues flushed by Start / collected after removal, removeall, close, fatal read, removal while the sequential receiver is held in tun.Write and a datagram arrives, peers configured while the interface is down) + random plans from one PRNG; counts read after every "
+            "identity change, close with packets staged, close while down, rate-limited handshakes under load with a consumed cookie, handshake-queue overflow with all handshake workers parked in Bind.Send, TUN reads that return packets together with ErrTooManySegments followed by close / by a fatal read, containers left in stopped peers' autodraining queues flushed by Start / collected after removal, removeall, close, fatal read, removal while the sequential receiver is held in tun.Write and a datagram arrives, peers configured while the interface is down, Stop placed between the entry test and the hand-off of SendStagedPackets) + random plans from one PRNG; counts read after every "
             "step, Close followed by two runtime.GC(); 29 stall scenarios with very small pools + 4 rounds of two goroutines waiting on an exhausted message-buffer pool while a two-element batch is released; non-trivial = the plan reaches "
             "at least 6 different branch kinds and at least one step with packets staged; distinct by content hash")
     assumptions = ["pools are bounded through the package variable device.VerifPoolMax (build tag verif) so that WaitPool.count is maintained",
@@ -148,7 +148,7 @@ class Prop:
             chunk //= 2
 
     POOLS = {1: "inbound-containers", 2: "outbound-containers", 3: "message-buffers", 4: "inbound-elements", 5: "outbound-elements",
-             6: "staged-element-ownership", 7: "staged-while-interface-down"}
+             6: "staged-element-ownership", 7: "staged-while-interface-down", 8: "undeclared-container-in-stopped-peers-queue"}
 
     def signature(self, case, f):
         if case.get("_fail"):
@@ -165,6 +165,8 @@ class Prop:
         pool = self.POOLS.get(f["pos"] % 10, "p%d" % (f["pos"] % 10))
         if f.get("kind") == 2 and f["pos"] % 10 == 6:
             return "staged-element-owned-twice-on-%s" % ev
+        if f.get("kind") == 2 and f["pos"] % 10 == 8:
+            return "container-parked-in-stopped-peers-queue-on-%s" % ev
         if f.get("kind") == 2 and f["pos"] % 10 == 7:
             return "packets-staged-while-interface-down-on-%s" % ev
         exp = None
